@@ -90,8 +90,11 @@ func (p *c06) Init(tier string) {
 	// parenthesised operands that carry a LIMIT / OFFSET of their own
 	for _, o1 := range []bool{false, true} {
 		for _, o2 := range []bool{false, true} {
-			for _, n := range []int{0, 1, 2} {
+			for _, n := range []int{-1, 0, 1, 2} {
 				for _, m := range []int{-1, 1} {
+					if n < 0 && m >= 0 {
+						continue // no window at all: the parentheses alone decide the association
+					}
 					for _, bs := range [][]int{{0, 2, 0}, {0, 0, 2}, {2, 1, 0}, {1, 2, 2}} {
 						for _, outer := range []int{-1, 2} {
 							p.cases = append(p.cases, c06case{kind: 2, shape: 0, branches: bs, ops: []bool{o1, o2}, limit: n, offset: m, lim2: outer},
@@ -400,7 +403,7 @@ func window(rows []string, limit, offset int) []string {
 
 func (p *c06) Meta() core.Meta {
 	return core.Meta{
-		Rule: "DISTINCT cases: 7 select lists (1-3 columns incl. an object-valued one, *), each also with LIMIT 0..3 / OFFSET absent,0..2 (no ORDER BY: the window applies to the de-duplicated sequence); UNION cases: every chain of 2-3 (thorough 4) branches over 3 branch queries with every mix of UNION / UNION ALL, without and with LIMIT; chains under a WITH clause whose CTE is read by the first, a middle or the last branch; parenthesised operands that carry a LIMIT / OFFSET of their own (left- and right-nested unions, windowed single branches); each on every table of <= 3 rows over 10 archetypes (thorough: also 4-5 rows over the first 6) and one table of 41 rows chosen to collide under %v ({a:1}/{a:\"1\"}, {a:\"x b:y\",b:\"q\"}/{a:\"x\",b:\"y b:q\"}); every successfully executed Query object is executed two more times and must return the same rows; non-trivial = a duplicate was actually removed and more than one row remains",
+		Rule: "DISTINCT cases: 7 select lists (1-3 columns incl. an object-valued one, *), each also with LIMIT 0..3 / OFFSET absent,0..2 (no ORDER BY: the window applies to the de-duplicated sequence); UNION cases: every chain of 2-3 (thorough 4) branches over 3 branch queries with every mix of UNION / UNION ALL, without and with LIMIT; chains under a WITH clause whose CTE is read by the first, a middle or the last branch; parenthesised operands that carry a LIMIT / OFFSET of their own (left- and right-nested unions with and without a window on the parenthesised operand, windowed single branches); each on every table of <= 3 rows over 10 archetypes (thorough: also 4-5 rows over the first 6) and one table of 41 rows chosen to collide under %v ({a:1}/{a:\"1\"}, {a:\"x b:y\",b:\"q\"}/{a:\"x\",b:\"y b:q\"}); every successfully executed Query object is executed two more times and must return the same rows; non-trivial = a duplicate was actually removed and more than one row remains",
 		Assumptions: []string{
 			"two rows are duplicates iff they have the same keys and type-identical values (the number 1 and the string \"1\" are different values)",
 			"chains associate to the left: (A op1 B) op2 C",
